@@ -259,3 +259,43 @@ def check_args_fit(spec, phys) -> bool:
         if k.startswith("str") and phys != "str":
             return False
     return True
+
+
+def _kind_ok(k, phys):
+    num = ("int64", "float64")
+    return k == phys or (k in num and phys in num)
+
+
+def check_typed_for(cs, phys) -> bool:
+    """the check's arguments are of the kind of the column it is applied to"""
+    b = cs["b"]
+    k = next(iter(b))
+    x = b[k]
+    vals = []
+    if "v" in x: vals = [x["v"]]
+    if "vs" in x: vals = x["vs"]
+    if k == "inRange": vals = [x["lo"], x["hi"]]
+    if k.startswith("str"):
+        return phys == "str"
+    return all(_kind_ok(A.vkind(v), phys) for v in vals)
+
+
+def checks_typed(case) -> bool:
+    """no check is applied to a column of another kind *while the dtype declaration lets the column through*
+    (dtype None or equal to the physical dtype).  The documentation defines no meaning for such a check;
+    pandas raises or not depending on the operation and on the physical array type."""
+    import re
+    S, D = case["schema"], case["frame"]
+    for spec in S["columns"]:
+        for c in D["cols"]:
+            hit = (re.match(A.pat_render(spec["regex"]), c["name"]) is not None) if spec["regex"] is not None \
+                else c["name"] == spec["name"]
+            if hit and spec["dtype"] in (None, c["dtype"]):
+                if not all(check_typed_for(cs, c["dtype"]) for cs in spec["checks"]):
+                    return False
+    if S["index"] is not None:
+        for l in D["index"]:
+            if S["index"]["dtype"] in (None, l["dtype"]):
+                if not all(check_typed_for(cs, l["dtype"]) for cs in S["index"]["checks"]):
+                    return False
+    return True
